@@ -13,8 +13,9 @@ out = ['# Seeded changes and which check catches which', '',
  'each to a scratch copy of the working tree and runs the quick check of the property it breaks.', '',
  'DETECTED = the check exits 1 with VIOLATION lines ("replayed" = reproduced on the real code by the generated test;',
  'the rest end in no-failing-input-found: loop-invariant, structural and OS-level obligations have no replay harness).',
- 'BROKEN = exit 2, undecided: the change uses a construct outside the verified subset in an obligation the property owns',
- '(never reported as a pass).', '',
+ 'BROKEN = exit 2, undecided: the change uses a construct outside the verified subset in an obligation the property owns,',
+ 'needs a loop invariant (bounded unrolling found no counterexample that replays), or no solver decided the changed',
+ 'obligation within the limits (never reported as a pass, never as a violation).', '',
  '| change | breaks | what it does | needs | result | first failing obligation |', '|---|---|---|---|---|---|']
 n = {'DETECTED': 0, 'MISSED': 0, 'BROKEN': 0}
 for d in sorted(glob.glob('/verif/seeded/*/')):
